@@ -18,6 +18,7 @@ det=miss=0
 rejected=[]; equivalent=[]
 for name in sorted(idx):
     m=idx[name]
+    if name.startswith('benign'): continue  # section 8.3
     st=m.get('status','')
     if st.startswith('REJECTED'):
         rejected.append(name); continue
